@@ -2,7 +2,7 @@ CONSTANTS
   RawConfigs <- MCRawConfigs
   InheritsSeesDefault = TRUE
   MaxLen = 3
-  TextVariants = {1, 2, 3, 4, 5, 6, 7, 8, 9}
+  TextVariants = {1, 2, 3, 4, 5, 6, 7, 8, 9, 10, 11, 12, 13, 14, 15, 16}
 SPECIFICATION MCSpec
 INVARIANTS Conforms EmitCases
 PROPERTY Termination
